@@ -19,11 +19,11 @@ CONSTANTS Universe        \* "cycles" | "scopes"
 VARIABLES stage, case, vws, vix
 vars == <<stage, case, vws, vix>>
 
-GFiles == {"c0", "c1", "cs", "t"}
-GDirs  == {"R", "Ra", "Rab", "Rs"}
-GDirOf == [f \in GFiles |-> CASE f = "c0" -> "R" [] f = "c1" -> "Ra" [] f = "cs" -> "Rs" [] f = "t" -> "Rab"]
+GFiles == {"c0", "c1", "cs", "t", "tp"}
+GDirs  == {"R", "Ra", "Rab", "Rs", "T"}
+GDirOf == [f \in GFiles |-> CASE f = "c0" -> "R" [] f = "c1" -> "Ra" [] f = "cs" -> "Rs" [] f = "t" -> "Rab" [] f = "tp" -> "T"]
 GParentOf == [d \in GDirs |-> CASE d = "Rab" -> "Ra" [] d = "Ra" -> "R" [] d = "Rs" -> "R" [] OTHER -> "NODIR"]
-GRoleOf == [f \in GFiles |-> IF f = "t" THEN "test" ELSE "conftest"]
+GRoleOf == [f \in GFiles |-> CASE f = "t" -> "test" [] f = "tp" -> "third" [] OTHER -> "conftest"]
 GNames == {"a", "b", "c"}
 
 RECURSIVE SetToSeqG(_)
@@ -140,18 +140,26 @@ CycWs(c) ==
                           [] c.sib = "a_plain" -> Module(<<PlainDef("a", <<>>)>>)
                           [] c.sib = "a_dep_b" -> Module(<<PlainDef("a", <<"b">>), PlainDef("b", <<>>)>>)
                           [] c.sib = "b_dep_a" -> Module(<<PlainDef("b", <<"a">>), PlainDef("a", <<"b">>)>>))
-         [] f = "t" -> Module(<<Test("test_1", <<"a">>)>>)]
+         [] f = "t" -> Module(<<Test("test_1", <<"a">>)>>)
+         [] OTHER -> Absent]
 
 \* scopes: fixture a(b) in c1 or t with scope s; b defined at up to three levels with scopes
+\*   bp: b provided (function-scoped) by an installed third-party plugin;
+\*   selfdep: the definition of b in a's own file is an OVERRIDE that requests b itself (`def b(b)`), so within
+\*   that one file the name b denotes two different definitions: the local one for a, the outer one for b
 ScopeShapes ==
-    [ where : {"c1", "t"}, sa : 0..4, b0 : {5, 0, 2, 4}, b1 : {5, 0, 1, 4}, bt : {5, 0, 3}, bs : {5, 0, 4} ]   \* 5 = absent
+    { x \in [ where : {"c1", "t"}, sa : 0..4, b0 : {5, 0, 2, 4}, b1 : {5, 0, 1, 4}, bt : {5, 0, 3}, bs : {5, 0, 4},
+              bp : {5, 0}, selfdep : BOOLEAN ] :        \* 5 = absent
+        /\ (x.bp < 5 => x.bs = 5 /\ ~x.selfdep)
+        /\ (x.selfdep => x.bs = 5 /\ (IF x.where = "c1" THEN x.b1 < 5 ELSE x.bt < 5)) }
 ScopeWs(c) ==
-    LET B(sc) == Def("b", <<>>, sc, FALSE)
+    LET B(f, sc) == Def("b", IF c.selfdep /\ f = c.where THEN <<"b">> ELSE <<>>, sc, FALSE)
         A == Def("a", <<"b">>, c.sa, FALSE)
-        items(f) == (IF (f = "c0" /\ c.b0 < 5) THEN <<B(c.b0)>> ELSE <<>>)
-                    \o (IF (f = "c1" /\ c.b1 < 5) THEN <<B(c.b1)>> ELSE <<>>)
-                    \o (IF (f = "t" /\ c.bt < 5) THEN <<B(c.bt)>> ELSE <<>>)
-                    \o (IF (f = "cs" /\ c.bs < 5) THEN <<B(c.bs)>> ELSE <<>>)
+        items(f) == (IF (f = "c0" /\ c.b0 < 5) THEN <<B(f, c.b0)>> ELSE <<>>)
+                    \o (IF (f = "c1" /\ c.b1 < 5) THEN <<B(f, c.b1)>> ELSE <<>>)
+                    \o (IF (f = "t" /\ c.bt < 5) THEN <<B(f, c.bt)>> ELSE <<>>)
+                    \o (IF (f = "cs" /\ c.bs < 5) THEN <<B(f, c.bs)>> ELSE <<>>)
+                    \o (IF (f = "tp" /\ c.bp < 5) THEN <<B(f, c.bp)>> ELSE <<>>)
                     \o (IF f = c.where THEN <<A>> ELSE <<>>)
                     \o (IF f = "t" THEN <<Test("test_1", <<"a">>)>> ELSE <<>>)
     IN  [f \in GFiles |-> IF items(f) = <<>> THEN Absent ELSE Module(items(f))]
